@@ -53,19 +53,19 @@ type vkFD struct {
 }
 
 type vkWorld struct {
-	fsroot *vkNode
-	root   *vkNode // the synchronization root
-	canary *vkNode
-	fds    []*vkFD
-	files  map[*os.File]int
+	fsroot  *vkNode
+	root    *vkNode // the synchronization root
+	canary  *vkNode
+	fds     []*vkFD
+	files   map[*os.File]int
 	nextIno uint64
 
 	// adversary: replace an in-root entry by a link into the canary
-	swapBudget int
-	swapCands  []vkSwap
-	swapsTaken int
-	opsAtSwap  int // number of kernel calls made before the (last) swap
-	calls      int // number of kernel calls made so far
+	swapBudget  int
+	swapCands   []vkSwap
+	swapsTaken  int
+	opsAtSwap   int  // number of kernel calls made before the (last) swap
+	calls       int  // number of kernel calls made so far
 	crossDevice bool // renaming from outside the root into it fails with EXDEV
 
 	eintrBudget int
